@@ -4,6 +4,8 @@ import LettreVerif.Model.Dkim
 import LettreVerif.Spec.Cost
 import LettreVerif.Model.XText
 import LettreVerif.Proofs.C03
+import LettreVerif.Proofs.EnvelopeJson
+import LettreVerif.Model.TypedHdr
 /-!
 # C19 — No input makes the library panic, overflow the stack, or run away
 
@@ -68,6 +70,18 @@ theorem xtext_at_most_triples (v : Bytes) : (XText.xtext v).length ≤ 3 * v.len
 theorem data_phase_linear (m : Bytes) : (Codec.wire m).length ≤ 2 * m.length + 5 := by
   have := (C03.encode_len .sol m).2
   simp [Codec.wire, Codec.terminator]; omega
+
+/-- The envelope file of the file transport is linear in the envelope: at most twice the octets of the addresses (every one
+    could need a backslash), three octets per recipient (quotes and comma) and 42 for the keys. -/
+theorem envelope_json_linear (e : Transports.Envelope) :
+    (Transports.envelopeJson e).length ≤
+      2 * ((e.to.map List.length).sum + (e.from?.map List.length).getD 0) + 3 * e.to.length + 42 :=
+  EnvelopeJson.envelopeJson_linear e
+
+/-- A MIME-Version value has at most seven octets. -/
+theorem mime_version_short (a b : Nat) : (TypedHdr.mimeDisplay a b).length ≤ 7 := by
+  unfold TypedHdr.mimeDisplay TypedHdr.u8Digits
+  split <;> split <;> (try split) <;> (try split) <;> simp
 
 /-- non-vacuity / tightness: a message of dots after CRLF doubles; a value of controls triples -/
 example : (Codec.wire [46]).length = 2 * 1 + 5 ∧ (XText.xtext [0, 9, 32]).length = 3 * 3 := by decide
